@@ -743,6 +743,244 @@ def m_call(e, args, info):
     return e.call_closure(clo, list(tup.f))
 
 
+
+# ---- further adaptors (not used by the crate today; modelled so that a plausible edit of the crate stays executable)
+class SkipIt(It):
+    def __init__(self, inner, n):
+        self.inner, self.n = inner, n
+
+    def next(self, e):
+        while self.n > 0:
+            self.n -= 1
+            if self.inner.next(e) is STOP:
+                return STOP
+        return self.inner.next(e)
+
+
+class TakeIt(It):
+    def __init__(self, inner, n):
+        self.inner, self.n = inner, n
+
+    def next(self, e):
+        if self.n <= 0:
+            return STOP
+        self.n -= 1
+        return self.inner.next(e)
+
+
+class WhileIt(It):
+    """skip_while (skip=True) / take_while (skip=False)"""
+
+    def __init__(self, inner, clo, skip):
+        self.inner, self.clo, self.skip, self.done = inner, clo, skip, False
+
+    def next(self, e):
+        if self.skip:
+            while not self.done:
+                x = self.inner.next(e)
+                if x is STOP:
+                    return STOP
+                if not e.branch(e.call_closure(self.clo, [Ref(Cell(x))])):
+                    self.done = True
+                    return x
+            return self.inner.next(e)
+        if self.done:
+            return STOP
+        x = self.inner.next(e)
+        if x is STOP:
+            return STOP
+        if not e.branch(e.call_closure(self.clo, [Ref(Cell(x))])):
+            self.done = True
+            return STOP
+        return x
+
+
+class ZipIt(It):
+    def __init__(self, a, b):
+        self.a, self.b = a, b
+
+    def next(self, e):
+        x = self.a.next(e)
+        if x is STOP:
+            return STOP
+        y = self.b.next(e)
+        if y is STOP:
+            return STOP
+        return Agg(None, [x, y])
+
+
+def _int_arg(v, what):
+    if not isinstance(v, int):
+        raise Unsupported('symbolic count in ' + what)
+    return v
+
+
+def _drain(e, it):
+    out = []
+    while True:
+        x = it.next(e)
+        if x is STOP:
+            return out
+        out.append(x)
+
+
+@trait('Iterator', 'skip')
+def m_it_skip(e, args, info):
+    return SkipIt(the_iter(e, args[0]), _int_arg(args[1], 'skip'))
+
+
+@trait('Iterator', 'take')
+def m_it_take(e, args, info):
+    return TakeIt(the_iter(e, args[0]), _int_arg(args[1], 'take'))
+
+
+@trait('Iterator', 'skip_while')
+def m_it_skip_while(e, args, info):
+    return WhileIt(the_iter(e, args[0]), args[1], True)
+
+
+@trait('Iterator', 'take_while')
+def m_it_take_while(e, args, info):
+    return WhileIt(the_iter(e, args[0]), args[1], False)
+
+
+@trait('Iterator', 'zip')
+def m_it_zip(e, args, info):
+    return ZipIt(the_iter(e, args[0]), to_iter(e, args[1]))
+
+
+@trait('Iterator', 'rev')
+@trait('DoubleEndedIterator', 'rev')
+def m_it_rev(e, args, info):
+    return ListIt(list(reversed(_drain(e, the_iter(e, args[0])))))
+
+
+@trait('Iterator', 'last')
+def m_it_last(e, args, info):
+    xs = _drain(e, the_iter(e, args[0]))
+    return some(xs[-1]) if xs else none()
+
+
+@trait('Iterator', 'nth')
+def m_it_nth(e, args, info):
+    it = the_iter(e, args[0])
+    n = _int_arg(args[1], 'nth')
+    x = STOP
+    for _ in range(n + 1):
+        x = it.next(e)
+        if x is STOP:
+            return none()
+    return some(x)
+
+
+@trait('Iterator', 'find_map')
+def m_it_find_map(e, args, info):
+    it = the_iter(e, args[0])
+    while True:
+        x = it.next(e)
+        if x is STOP:
+            return none()
+        r = e.call_closure(args[1], [x])
+        if opt_d(e, r) == 1:
+            return r
+
+
+@trait('Iterator', 'cloned')
+@trait('Iterator', 'copied')
+def m_it_cloned(e, args, info):
+    from engine import clone_val
+    return ListIt([clone_val(e.deref(x)) if isinstance(x, Ref) else x for x in _drain(e, the_iter(e, args[0]))])
+
+
+@exact('std::option::Option::filter')
+def m_opt_filter(e, args, info):
+    o = args[0]
+    if opt_d(e, o) == 0:
+        return none()
+    if e.branch(e.call_closure(args[1], [Ref(Cell(o.p[1][0]))])):
+        return o
+    return none()
+
+
+@exact('std::option::Option::map_or_else')
+def m_opt_map_or_else(e, args, info):
+    o = args[0]
+    if opt_d(e, o) == 0:
+        return e.call_closure(args[1], [])
+    return e.call_closure(args[2], [o.p[1][0]])
+
+
+@exact('std::option::Option::and')
+def m_opt_and(e, args, info):
+    return none() if opt_d(e, args[0]) == 0 else args[1]
+
+
+@exact('std::option::Option::xor')
+def m_opt_xor(e, args, info):
+    a, b = opt_d(e, args[0]), opt_d(e, args[1])
+    if a == 1 and b == 0:
+        return args[0]
+    if a == 0 and b == 1:
+        return args[1]
+    return none()
+
+
+@exact('std::option::Option::zip')
+def m_opt_zip(e, args, info):
+    if opt_d(e, args[0]) == 0 or opt_d(e, args[1]) == 0:
+        return none()
+    return some(Agg(None, [args[0].p[1][0], args[1].p[1][0]]))
+
+
+@exact('std::option::Option::ok_or_else')
+def m_opt_ok_or_else(e, args, info):
+    o = args[0]
+    if opt_d(e, o) == 0:
+        return err(e.call_closure(args[1], []))
+    return ok(o.p[1][0])
+
+
+@exact('std::option::Option::is_none_or')
+def m_opt_is_none_or(e, args, info):
+    o = args[0]
+    if opt_d(e, o) == 0:
+        return True
+    return e.call_closure(args[1], [o.p[1][0]])
+
+
+@exact('std::option::Option::cloned', 'std::option::Option::copied')
+def m_opt_cloned(e, args, info):
+    from engine import clone_val
+    o = args[0]
+    if opt_d(e, o) == 0:
+        return none()
+    x = o.p[1][0]
+    return some(clone_val(e.deref(x)) if isinstance(x, Ref) else x)
+
+
+@exact('std::option::Option::flatten')
+def m_opt_flatten(e, args, info):
+    o = args[0]
+    if opt_d(e, o) == 0:
+        return none()
+    return o.p[1][0]
+
+
+@exact('core::slice::first', 'syn::punctuated::Punctuated::first', 'syn::punctuated::Punctuated::first_mut', 'core::slice::first_mut')
+def m_slice_first(e, args, info):
+    r = args[0]
+    t = e.deref(r)
+    while isinstance(e.load(r.cell, r.proj), Ref):
+        r = e.load(r.cell, r.proj)
+    if container_len(t) == 0:
+        return none()
+    return some(Ref(r.cell, r.proj + (('f', 0),)))
+
+
+@exact('syn::punctuated::Punctuated::len')
+def m_punct_len(e, args, info):
+    return container_len(e.deref(args[0]))
+
 # =========================================================================== Vec / slices / Punctuated
 
 @exact('std::vec::Vec::new', 'syn::punctuated::Punctuated::new')
@@ -1131,6 +1369,23 @@ def m_eq(e, args, info):
         return a.id == b.id
     if hasattr(a, 'name') and hasattr(b, 'name') and type(a) is type(b) and type(a).__name__ == 'LifetimeV':
         return a.name == b.name
+    if isinstance(a, EnumV) and isinstance(b, EnumV) and a.ty == b.ty and a.ty in ('std::option::Option', 'core::option::Option'):
+        # Option<T>: same discriminant and, for Some, equal payloads (payload equality through this same dispatch)
+        da = a.d if isinstance(a.d, int) else (1 if e.branch(a.d == 1) else 0)
+        db = b.d if isinstance(b.d, int) else (1 if e.branch(b.d == 1) else 0)
+        if da != db:
+            return False
+        if da == 0:
+            return True
+        return m_eq(e, [a.p[1][0], b.p[1][0]], info)
+    if isinstance(a, VecV) and isinstance(b, VecV):
+        if len(a.items) != len(b.items):
+            return False
+        for x, y in zip(a.items, b.items):
+            r = m_eq(e, [x, y], info)
+            if not (r if isinstance(r, bool) else e.branch(r)):
+                return False
+        return True
     if isinstance(a, (Agg, EnumV)) and (a.ty, 'PartialEq', 'eq') in e.trait_impls:
         # `&T == &T` (std's blanket impl for references) delegates to the crate's impl for T
         return e.call_fn(e.trait_impls[(a.ty, 'PartialEq', 'eq')][0][1], [Ref(Cell(a)), Ref(Cell(b))])
